@@ -8,6 +8,7 @@ ensure_env()
 from progcorpus import *  # noqa
 from gen_subs import gen_sub_program
 import c02 as C02
+import c03_free
 
 PROOF_FILES = ["Proofs/OptimizeSem.v", "Proofs/OptimizeCorrect.v", "Proofs/OptimizeOptions.v"]
 
@@ -158,6 +159,68 @@ def main(argv):
                          "the optimised and unoptimised programs log different results for Int(10) - g(Int(7))")
             else:
                 diffs.append({"kind": "differential", "a": c_on.describe(), "b": c_off.describe(), "obs_a": repr(a)[:800], "obs_b": repr(b)[:800]})
+
+    # ---- free-form real programs (ABI-returning routines with by-reference parameters, DynamicScratchVar, tuples ...):
+    # real output vs real output across the option matrix, plus each program's own expected verdict (they approve iff
+    # their own arithmetic holds); then the same programs compiled with a SHARED OptimizeOptions object that has already
+    # been used for another program (options are per-compilation inputs: reuse must not change the output)
+    free_stats = {"programs": 0, "variants": 0, "runs": 0, "shared_option_pairs": 0}
+    fversions = list(range(6, 11)) if thorough else [6, 8, 9, 10]
+    frees = c03_free.programs(pt)
+    for name, minv, build in frees:
+        free_stats["programs"] += 1
+        variants = []
+        for v in fversions:
+            if v < minv:
+                continue
+            for ss, fp in c03_free.option_matrix(v):
+                r = call_real(lambda: pt.compileTeal(build(), pt.Mode.Application, version=v, optimize=optimize_of(pt, ss, fp)))
+                free_stats["variants"] += 1
+                ck.count(("free", name, v, ss, fp), nontrivial=(r[0] == "ok"))
+                if r[0] == "ok":
+                    variants.append(((v, ss, fp), r[1]))
+                elif r[1] not in PYTEAL_ERRORS:
+                    diffs.append({"kind": "free-crash", "program": name, "version": v, "scratch_slots": ss, "frame_pointers": fp, "obs_a": r[1], "obs_b": "TEAL expected", "a": name, "b": name})
+        for _ in range(2 if not thorough else 4):
+            ctx = gen_context(rng, True)
+            obs = []
+            for opt, teal in variants:
+                r = run_teal(model, ctx, teal)
+                free_stats["runs"] += 1
+                o = observable(r)
+                if o is not None:
+                    obs.append((opt, teal, o))
+            for (o1, t1, a), (o2, t2, b) in zip(obs, obs[1:]):
+                stats["pairs_compared"] += 1
+                if a != b:
+                    diffs.append({"kind": "free-differential", "program": name, "ctx": sx(ctx), "a": {"options": o1, "teal": t1}, "b": {"options": o2, "teal": t2},
+                                  "obs_a": repr(a)[:1500], "obs_b": repr(b)[:1500]})
+            for opt, teal, o in obs[:]:
+                if o[0] != repr(S("approve")):
+                    diffs.append({"kind": "free-verdict", "program": name, "ctx": sx(ctx), "a": {"options": opt, "teal": teal}, "b": "the program approves iff its own arithmetic holds",
+                                  "obs_a": repr(o)[:1500], "obs_b": "approve"})
+                    break
+    # shared OptimizeOptions object
+    for v in ([9] if not thorough else [6, 9, 10]):
+        for ss in (True, None):
+            for i, (name, minv, build) in enumerate(frees):
+                prev = frees[(i + 3) % len(frees)][2]
+                shared = pt.OptimizeOptions(scratch_slots=ss)
+                call_real(lambda: pt.compileTeal(prev(), pt.Mode.Application, version=v, optimize=shared))
+                r_shared = call_real(lambda: pt.compileTeal(build(), pt.Mode.Application, version=v, optimize=shared))
+                r_fresh = call_real(lambda: pt.compileTeal(build(), pt.Mode.Application, version=v, optimize=pt.OptimizeOptions(scratch_slots=ss)))
+                free_stats["shared_option_pairs"] += 1
+                ck.count(("shared-options", name, v, ss))
+                if r_shared[0] == "ok" and r_fresh[0] == "ok" and r_shared[1] != r_fresh[1]:
+                    ctx = gen_context(rng, True)
+                    a, b = observable(run_teal(model, ctx, r_shared[1])), observable(run_teal(model, ctx, r_fresh[1]))
+                    diffs.append({"kind": "shared-options", "program": name, "previous_program": frees[(i + 3) % len(frees)][0], "version": v, "scratch_slots": ss, "ctx": sx(ctx),
+                                  "a": {"teal_after_reusing_the_options_object": r_shared[1]}, "b": {"teal_with_fresh_options": r_fresh[1]},
+                                  "obs_a": repr(a)[:800], "obs_b": repr(b)[:800]})
+                elif r_shared[0] != r_fresh[0]:
+                    diffs.append({"kind": "shared-options", "program": name, "version": v, "scratch_slots": ss, "a": repr(r_shared)[:500], "b": repr(r_fresh)[:500],
+                                  "obs_a": r_shared[0], "obs_b": r_fresh[0]})
+    ck.coverage["free_form_programs"] = free_stats
 
     n = 1200 if thorough else 150
     for i in range(n):
